@@ -300,9 +300,15 @@ func c09WarmUp() {
 // c09Metered runs f under the recover monitor between two TotalAlloc readings.
 func c09Metered(c *mon.Ctx, entry string, f func()) (ok bool, alloc uint64) {
 	var m0, m1 runtime.MemStats
+	e0 := mon.SelfExams.Load()
 	runtime.ReadMemStats(&m0)
 	ok = c.Try(entry, f)
 	runtime.ReadMemStats(&m1)
+	if mon.SelfExams.Load() != e0 {
+		// the child's own examiner (a goroutine dump) ran during the call: its allocations are not the library's
+		c.Count("meter:discarded:the-child's-examiner-ran-during-the-call")
+		return ok, 0
+	}
 	return ok, m1.TotalAlloc - m0.TotalAlloc
 }
 
